@@ -8,6 +8,9 @@ sys.path.insert(0, os.path.join(VERIF, "checks"))
 
 # (property, signature regex) -> (title, where)
 TITLES = [
+    ("C01", r"rule-unsound_expr_if-not", "rewrite rule if-not: (if (not c) a b) => (if c b a) is wrong when c is NULL (both sides take their ELSE branch, which differ)", "src/planner/rules/expr.rs if-not"),
+    ("C01", r"rule-unsound_expr_(eq-trans|and-gt-lt-conflict)", "rewrite rules eq-trans / and-gt-lt-conflict are only filter-equivalent: as projected values they turn NULL into FALSE", "src/planner/rules/expr.rs"),
+    ("C01", r"rule-unsound", "a rewrite rule applied alone changes the result of a well-typed instantiation of its left-hand side", "src/planner/rules"),
     ("C01", r"rows-differ_proj_(mulzero|subself|eqself)", "NULL-unsafe scalar rewrite rules (mul-zero, sub-cancel, eq-eq family) change results on NULL rows", "src/planner/rules/expr.rs"),
     ("C01", r"rows-differ_(join|selfjoin|derived)", "optimised join plans differ from the unoptimised plan: hash join matches NULL = NULL keys; join-condition pushdown applied to outer joins; filter pushed below LIMIT", "src/executor/hash_join.rs; src/planner/rules/plan.rs (pushdown-join-condition-*, pushdown-filter-limit/topn)"),
     ("C01", r"rows-differ_agg", "aggregates over an empty input differ between optimised and unoptimised plans", "src/planner/rules/expr.rs / src/executor/simple_agg.rs"),
@@ -72,6 +75,18 @@ FIXED = [
     ("fix: block checksum is verified before the block enters the cache", "C18", "flip bit 0 of byte 0 of 0_3/0.col: first `select k, s, v from a` failed with Checksum error, the repeated read returned altered rows (480 + 584 cases)"),
     ("fix: column index decoding does not trust", "C18", "0_3/0.idx footer length corrupted: process abort in Vec::with_capacity (44 cases) / silently truncated column (2 cases)"),
     ("fix: INSERT enforces NOT NULL", "C16", "`insert into t values (null, 7)` into `x smallint not null`: accepted; memory stored NULL, disk stored 0 (74 cases; C05 rows-differ)"),
+    ("fix: key ranges are pushed into the scan only for an INT primary key", "C13", "pk in column 1 or 2, or BIGINT/SMALLINT/VARCHAR/DATE keys: `select k, v from t where k = 0` returned missing/extra rows or panicked (7 000+ enumerated cases; C05 memory vs disk; C07/C12 thorough layouts)"),
+    ("fix: start_rowid scans from the beginning when first keys are not recorded", "C13", "record_first_key = false: every pushed-down key range panicked (780 cases)"),
+    ("fix: the condition pushed into a scan is re-applied", "C13", "`select k, v from t where k > 16 and k < 16` returned the whole table (36 cases)"),
+    ("fix: a one-sided ON conjunct is pushed below a join only", "C01", "`t1 left join t2 on t1.a = t2.a and t1.b > 1` lost unmatched left rows under the optimizer; rule check: pushdown-join-condition-left(-1) with left_outer/anti (384 instantiations)"),
+    ("fix: filters are no longer pushed below LIMIT", "C01", "`select * from (select a, b from t1 order by a, b limit 2) s where a > 0` returned rows outside the first two; rule check: pushdown-filter-limit/-topn (85 instantiations)"),
+    ("fix: scalar rewrites that are wrong for NULL operands", "C01", "`select a * 0, a - a, a = a from t1` on NULL rows: 0 / 0 / true instead of NULL; rule check: mul-zero, sub-cancel, eq-eq, ne-eq, gt-eq, lt-eq, ge-eq, le-eq"),
+    ("fix: x % 0 yields NULL", "C14", "`select a % b from t` with b = 0 panicked inside the operator; `select 1 % 0` panicked while folding"),
+    ("fix: constant folding of AND / OR is three-valued", "C14", "`select null and false` folded to NULL, run time gives false; `null or true` likewise"),
+    ("fix: CAST(number AS BOOLEAN) clears the raw bit", "C14", "`select i from t where cast(a + b as boolean)` returned rows whose a + b is NULL"),
+    ("fix: CASE / IF takes its validity from the selected branch", "C14", "`case when q then b else null end` returned 0 where q is false; `case when a is null then b else a end` returned NULL for non-NULL a"),
+    ("fix: the vectorised SUM skips NULL slots", "C11", "agg without keys over an all-NULL column: SUM = 0, hashagg says NULL; C01/C02 `select sum(b) from t1 where a > 100` returned 0"),
+    ("fix: the nested-loop join implements RIGHT and FULL OUTER", "C11", "every RIGHT/FULL join through the nested-loop join panicked in todo!() (3 160 cases; C02 no-answer, C17 operator-panics)"),
     ("fix: nullable block iterator keeps the validity", "C06", "int16 nullable plain, block 32, 81-row pattern, script [next(1), next(7)]: a batch spanning a block boundary lost rows / reported wrong row ids (155 050 cases)"),
 ]
 
